@@ -1,12 +1,44 @@
 package geom
 
-import "fmt"
+import (
+	"fmt"
+	"strings"
+)
 
 func wrap(err error, format string, args ...interface{}) error {
 	if err == nil {
 		return nil
 	}
-	return fmt.Errorf(format+": %w", append(args, err)...)
+	return &wrappedError{fmt.Sprintf(format, args...), err}
+}
+
+// wrappedError is an error with some context prepended to it. The message is
+// only assembled when asked for: errors from deeply nested geometries are
+// wrapped once per level, and formatting the whole chain at every level would
+// take time and memory quadratic in the nesting depth.
+type wrappedError struct {
+	context string
+	err     error
+}
+
+func (e *wrappedError) Error() string {
+	var sb strings.Builder
+	var err error = e
+	for {
+		w, ok := err.(*wrappedError) //nolint:errorlint
+		if !ok {
+			break
+		}
+		sb.WriteString(w.context)
+		sb.WriteString(": ")
+		err = w.err
+	}
+	sb.WriteString(err.Error())
+	return sb.String()
+}
+
+func (e *wrappedError) Unwrap() error {
+	return e.err
 }
 
 // wrapSimplified wraps errors to indicate that they occurred as a result of no
